@@ -228,7 +228,7 @@ def search(ctx: Ctx) -> Result:
 
 
 SPEC = PropSpec(
-    prop='C12', translators=[], run=run, search=search,
+    prop='C12', translators=['deciderfrag'], run=run, search=search,
     rule='adaptive histories of 8-40 operations on one real decider mixing local events with remote updates derived from its '
          'current table (ahead / equal / behind / finished / stale / merged / duplicated / unknown pattern / foreign id), over random '
          'and loop/optional/singleton pattern sets with finished-run memory 0/8/1000 (memory-dependent clauses checked with 1000), plus sampled exhaustive C01 local streams; '
